@@ -38,6 +38,7 @@ import (
 const (
 	hostA     = "a.c14.test"
 	hostB     = "b.c14.test"
+	hostC     = "c.c14.test" // the bystander lease's hostname
 	groupName = "g"
 )
 
@@ -54,6 +55,7 @@ type raw struct {
 	State string
 	Runch bool
 	Err   bool
+	By    string
 }
 
 type blockedCall struct {
@@ -111,6 +113,18 @@ type world struct {
 	hnReleased       bool
 	hnConsumed       bool
 	foreign          int // hook events for other leases / unknown kinds
+
+	// bystander: a second lease of the SAME deployment (other group sequence), deployed before the script starts and
+	// never closed; whatever happens to the lease under test must leave it alone (routing keys in service.go)
+	bystander   bool
+	settingUp   bool
+	byLease     mtypes.LeaseID
+	byStr       string
+	byState     string
+	byExited    bool
+	byDeploys   int
+	byTeardowns int
+	byResvOK    bool
 }
 
 type freePlan struct {
@@ -130,7 +144,9 @@ func manifestID(g *manifest.Group) int {
 	return id
 }
 
-func mkGroup(id int) manifest.Group {
+func mkGroup(id int) manifest.Group { return mkGroupHosts(id, []string{hostA, hostB}) }
+
+func mkGroupHosts(id int, hosts []string) manifest.Group {
 	return manifest.Group{
 		Name: groupName,
 		Services: []manifest.Service{{
@@ -142,7 +158,7 @@ func mkGroup(id int) manifest.Group {
 				Storage: &atypes.Storage{Quantity: atypes.NewResourceValue(1 << 20)},
 			},
 			Count:  1,
-			Expose: []manifest.ServiceExpose{{Port: 80, ExternalPort: 80, Proto: manifest.TCP, Global: true, Hosts: []string{hostA, hostB}}},
+			Expose: []manifest.ServiceExpose{{Port: 80, ExternalPort: 80, Proto: manifest.TCP, Global: true, Hosts: hosts}},
 		}},
 	}
 }
@@ -267,7 +283,10 @@ func (w *world) stableLocked() bool {
 		return false
 	}
 	if w.svcShutSeen && !w.svcDone && w.created == w.collected {
-		return false
+		// (the bystander's manager releases its hostname on exit, which waits for the hostname service: held at our gate)
+		if !(w.bystander && w.hnGateHeld) {
+			return false
+		}
 	}
 	if w.hnReleased && !w.hnConsumed && w.alive() {
 		return false
@@ -355,8 +374,23 @@ func (w *world) sink(ev veriftrace.Event) {
 	case "cluster-manager":
 		if ev.ID != w.leaseStr {
 			w.mu.Lock()
-			w.foreign++
+			if w.bystander && ev.ID == w.byStr {
+				switch ev.Event {
+				case "loop":
+					if st, ok := ev.KV["state"].(string); ok {
+						w.byState = st
+					}
+				case "exit":
+					w.byExited = true
+				}
+			} else {
+				w.foreign++
+			}
 			w.mu.Unlock()
+			select {
+			case w.notify <- struct{}{}:
+			default:
+			}
 			return
 		}
 		r := raw{Th: "D", K: ev.Event}
@@ -420,6 +454,10 @@ func (w *world) gate(name string) {
 		return
 	}
 	w.mu.Lock()
+	if w.settingUp { // the bystander's request (same deployment id): not part of the script
+		w.mu.Unlock()
+		return
+	}
 	ch := make(chan struct{})
 	w.hnGate = ch
 	w.hnGateHeld = true
@@ -519,6 +557,12 @@ func (c *sclient) call(kind string, m int) error {
 }
 
 func (c *sclient) Deploy(_ context.Context, lid mtypes.LeaseID, g *manifest.Group) error {
+	if c.w.bystander && lid.Equals(c.w.byLease) {
+		c.w.mu.Lock()
+		c.w.byDeploys++
+		c.w.mu.Unlock()
+		return nil
+	}
 	if !lid.Equals(c.w.lease) { // not this lease's operation: never counts as its deploy
 		c.w.record(raw{Th: "X", K: "foreign_call", C: "Deploy", R: lid.String()})
 		return nil
@@ -527,6 +571,12 @@ func (c *sclient) Deploy(_ context.Context, lid mtypes.LeaseID, g *manifest.Grou
 }
 
 func (c *sclient) TeardownLease(_ context.Context, lid mtypes.LeaseID) error {
+	if c.w.bystander && lid.Equals(c.w.byLease) {
+		c.w.mu.Lock()
+		c.w.byTeardowns++
+		c.w.mu.Unlock()
+		return nil
+	}
 	if !lid.Equals(c.w.lease) { // tearing down some other lease is not the teardown C14 asks for
 		c.w.record(raw{Th: "X", K: "foreign_call", C: "Teardown", R: lid.String()})
 		return nil
@@ -596,6 +646,7 @@ type worldOpts struct {
 	forced      bool
 	hnFail      bool
 	preexisting bool
+	bystander   bool
 	seed        int64
 	plan        freePlan
 	dseq        uint64
@@ -673,7 +724,41 @@ func newWorld(o worldOpts) (*world, error) {
 	if err := w.waitStable(20 * time.Second); err != nil {
 		return nil, err
 	}
+	if o.bystander {
+		if err := w.setupBystander(); err != nil {
+			return w, err
+		}
+	}
 	return w, nil
+}
+
+func (w *world) setupBystander() error {
+	by := w.lease
+	by.GSeq = 2
+	w.mu.Lock()
+	w.bystander, w.settingUp = true, true
+	w.byLease, w.byStr = by, by.String()
+	w.mu.Unlock()
+	g := mkGroupHosts(900, []string{hostC})
+	gs := dtypes.GroupSpec{Name: groupName}
+	for _, r := range g.GetResources() {
+		gs.Resources = append(gs.Resources, dtypes.Resource{Resources: r.Resources, Count: r.Count})
+	}
+	if _, err := w.svc.Reserve(by.OrderID(), gs); err != nil {
+		return fmt.Errorf("bystander reserve: %w", err)
+	}
+	m := manifest.Manifest{g}
+	if err := w.bus.Publish(event.ManifestReceived{LeaseID: by, Manifest: &m,
+		Group: &dtypes.Group{GroupID: by.GroupID(), GroupSpec: dtypes.GroupSpec{Name: groupName}}}); err != nil {
+		return err
+	}
+	if err := w.waitFor("bystander deployed", 20*time.Second, func() bool { return w.byState == "deploy-complete" }); err != nil {
+		return err
+	}
+	w.mu.Lock()
+	w.settingUp = false
+	w.mu.Unlock()
+	return nil
 }
 
 func (w *world) close() {
@@ -798,8 +883,50 @@ func (w *world) observe() (resvHeld, hnHeld, ok bool) {
 	if err != nil {
 		return false, hnHeld, false
 	}
-	resvHeld = len(st.Inventory.Active)+len(st.Inventory.Pending) > 0
+	n := len(st.Inventory.Active) + len(st.Inventory.Pending)
+	w.mu.Lock()
+	if w.bystander {
+		w.byResvOK = n >= 1
+		n--
+	}
+	w.mu.Unlock()
+	resvHeld = n > 0
 	return resvHeld, hnHeld, true
+}
+
+// bystanderStatus: "-" no bystander, "ok" untouched, otherwise what happened to it.
+func (w *world) bystanderStatus() string {
+	w.mu.Lock()
+	by, shut := w.bystander, w.svcShutReq
+	td, ex, st, rok := w.byTeardowns, w.byExited, w.byState, w.byResvOK
+	w.mu.Unlock()
+	if !by {
+		return "-"
+	}
+	if shut {
+		return "ok" // provider shutdown stops every manager
+	}
+	hch := make(chan error, 1)
+	go func() { hch <- <-w.svc.HostnameService().CanReserveHostnames([]string{hostC}, w.otherDID) }()
+	held := false
+	select {
+	case err := <-hch:
+		held = err != nil
+	case <-time.After(10 * time.Second):
+	}
+	switch {
+	case td > 0:
+		return "disturbed: torn down"
+	case ex:
+		return "disturbed: manager exited"
+	case st != "deploy-complete":
+		return "disturbed: state " + st
+	case !rok:
+		return "disturbed: reservation gone"
+	case !held:
+		return "disturbed: hostname released"
+	}
+	return "ok"
 }
 
 // observeStable records the release observations at a stable point (nothing left to do for the last stimulus) unless the
@@ -831,7 +958,7 @@ func (w *world) observeRecord(q bool) {
 	w.mu.Lock()
 	shut := w.svcShutReq
 	w.mu.Unlock()
-	r := raw{Th: "H", K: "obs", Runch: resv, Err: hn, R: "ok", State: "resv-known"}
+	r := raw{Th: "H", K: "obs", Runch: resv, Err: hn, R: "ok", State: "resv-known", By: w.bystanderStatus()}
 	if shut {
 		r.State = "resv-unknown" // Status() is refused once the service shuts down
 	}
